@@ -64,7 +64,7 @@ def make_directory(rng, conv, tier):
             r = 0.2
         if r < 0.08:
             op, data = 'empty', b''
-        elif v.corruptor is not None and r < 0.4:
+        elif v.corruptor is not None and r < (0.6 if conv == 'lis' else 0.4):
             op, data = v.corruptor(rng)
         else:
             op, data = corrupt.mutate(rng, v.data, other=rng.choice(valids)[1].data, boundaries=v.boundaries)
